@@ -68,7 +68,6 @@ theorem find_append_new {β : Type} (key : β → String) (x : β) (l : List β)
     simp [hnew]
   · have : ¬ key x = k := fun e => hk e.symm
     simp [hk, this]
-    cases l.find? (fun y => decide (key y = k)) <;> simp
 
 theorem mem_map_key_of_find {β : Type} (key : β → String) (l : List β) (k : String)
     (h : l.find? (fun y => decide (key y = k)) = none) : k ∉ l.map key := by
@@ -190,24 +189,724 @@ theorem acc_other {w wk wk' : World} {bk bk' : Batch} (ha : Acc w wk bk)
 
 theorem findIng_eq (w : World) (k : String) : w.findIng k = w.ings.find? (fun x => decide (x.key = k)) := rfl
 
-/-- LEMMA W: one operation preserves `Acc` (unless it asks for a full sync) and unique keys -/
-theorem acc_step {w wk : World} {bk : Batch} (op : Op) (ha : Acc w wk bk) (hwf : wk.WF)
-    (hfull : (applyOp (wk, bk) op).2.full = false) :
-    Acc w (applyOp (wk, bk) op).1 (applyOp (wk, bk) op).2 ∧ (applyOp (wk, bk) op).1.WF := by
+
+/-! ### ingress events -/
+
+/-- the effect of an ingress event on `validIng`, common to create/update/delete -/
+theorem acc_ing_event {w wk wk' : World} {bk bk' : Batch} (ha : Acc w wk bk) (k0 : String)
+    (hread : ∀ n, wk'.read n = wk.read n)
+    (hvi : ∀ k, k ≠ k0 → wk'.validIng k = wk.validIng k)
+    (hlinks : ∀ n ∈ bk.links, n ∈ bk'.links)
+    (hnew : ∀ k, (⟨.ing, k⟩ : Node) ∈ bk'.links → (⟨.ing, k⟩ : Node) ∈ bk.links ∨ k = k0)
+    (hadd : ∀ i, i ∈ bk.add → i ∈ bk'.add) (hupd : ∀ i, i ∈ bk.upd → i ∈ bk'.upd)
+    (hev : ∀ i, i ∈ bk'.add ∨ i ∈ bk'.upd → (i ∈ bk.add ∨ i ∈ bk.upd) ∨ i.key = k0)
+    (hdel : ∀ k ∈ bk'.del, k ∈ bk.del ∨ k = k0)
+    (hk0 : wk.validIng k0 ≠ wk'.validIng k0 → (⟨.ing, k0⟩ : Node) ∈ bk'.links)
+    (hlinked : (∃ i, i ∈ bk'.add ∨ i ∈ bk'.upd ∧ False) ∨ True)
+    (hevl : (∃ i, (i ∈ bk'.add ∨ i ∈ bk'.upd) ∧ ¬ (i ∈ bk.add ∨ i ∈ bk.upd)) → (⟨.ing, k0⟩ : Node) ∈ bk'.links)
+    (hdell : (∃ k ∈ bk'.del, k ∉ bk.del) → (⟨.ing, k0⟩ : Node) ∈ bk'.links)
+    (hcar : ∀ i, (⟨.ing, k0⟩ : Node) ∈ bk'.links → wk'.validIng k0 = some i → i ∈ bk'.add ∨ i ∈ bk'.upd) :
+    Acc w wk' bk' := by
+  refine ⟨?_, ?_, ?_, ?_, ?_⟩
+  · intro n hn
+    rw [hread] at hn
+    exact hlinks n (ha.obj n hn)
+  · intro k hk
+    by_cases hke : k = k0
+    · subst hke
+      by_cases h : wk.validIng k = wk'.validIng k
+      · rw [← h] at hk; exact hlinks _ (ha.ing k hk)
+      · exact hk0 h
+    · rw [hvi k hke] at hk
+      exact hlinks _ (ha.ing k hk)
+  · intro k i hl hvk
+    by_cases hke : k = k0
+    · subst hke; exact hcar i hl hvk
+    · rw [hvi k hke] at hvk
+      rcases hnew k hl with h | h
+      · rcases ha.carried k i h hvk with h1 | h1
+        · exact Or.inl (hadd i h1)
+        · exact Or.inr (hupd i h1)
+      · exact absurd h hke
+  · intro i hi
+    by_cases hold : i ∈ bk.add ∨ i ∈ bk.upd
+    · exact hlinks _ (ha.events i hold)
+    · rcases hev i hi with h | h
+      · exact absurd h hold
+      · rw [h]; exact hevl ⟨i, hi, hold⟩
+  · intro k hk
+    by_cases hold : k ∈ bk.del
+    · exact hlinks _ (ha.del k hold)
+    · rcases hdel k hk with h | h
+      · exact absurd h hold
+      · rw [h]; exact hdell ⟨k, hk, hold⟩
+
+theorem read_ings_irrelevant (wk : World) (l : List Ingress) (n : Node) :
+    ({ wk with ings := l } : World).read n = wk.read n := rfl
+
+theorem validIng_other (wk : World) (l : List Ingress) (k k0 : String)
+    (hfind : ({ wk with ings := l } : World).findIng k = wk.findIng k) :
+    ({ wk with ings := l } : World).validIng k = wk.validIng k := by
+  unfold World.validIng
+  rw [hfind]
+  cases wk.findIng k with
+  | none => rfl
+  | some j =>
+    have : ({ wk with ings := l } : World).valid j = wk.valid j := valid_congr rfl j
+    simp [Option.filter, this]
+
+theorem validIng_at (wk : World) (l : List Ingress) (k : String) (o : Option Ingress)
+    (hfind : ({ wk with ings := l } : World).findIng k = o) :
+    ({ wk with ings := l } : World).validIng k = o.filter wk.valid := by
+  unfold World.validIng
+  rw [hfind]
+  cases o with
+  | none => rfl
+  | some j =>
+    have : ({ wk with ings := l } : World).valid j = wk.valid j := valid_congr rfl j
+    simp [Option.filter, this]
+
+theorem acc_ingSet {w wk : World} {bk : Batch} (i0 : Ingress) (ha : Acc w wk bk) (hwf : wk.WF) :
+    Acc w (applyOp (wk, bk) (.ingSet i0)).1 (applyOp (wk, bk) (.ingSet i0)).2 ∧
+      (applyOp (wk, bk) (.ingSet i0)).1.WF := by
+  cases hf : wk.findIng i0.key with
+  | none =>
+    have hfind : ∀ k, ({ wk with ings := wk.ings ++ [i0] } : World).findIng k =
+        if k = i0.key then some i0 else wk.findIng k := by
+      intro k
+      rw [findIng_eq, findIng_eq]
+      exact find_append_new Ingress.key i0 wk.ings k (by rw [← findIng_eq]; exact hf)
+    have hwf' : ({ wk with ings := wk.ings ++ [i0] } : World).WF := by
+      unfold World.WF at *
+      simp only [List.map_append, List.map_cons, List.map_nil]
+      rw [List.nodup_append]
+      refine ⟨hwf, by simp, ?_⟩
+      intro a ha' b hb
+      simp at hb
+      subst hb
+      exact fun e => mem_map_key_of_find Ingress.key wk.ings i0.key (by rw [← findIng_eq]; exact hf) (e ▸ ha')
+    have hother : ∀ k, k ≠ i0.key → ({ wk with ings := wk.ings ++ [i0] } : World).validIng k = wk.validIng k := by
+      intro k hk
+      exact validIng_other wk _ k i0.key (by rw [hfind]; simp [hk])
+    have hat : ({ wk with ings := wk.ings ++ [i0] } : World).validIng i0.key = (some i0).filter wk.valid :=
+      validIng_at wk _ i0.key (some i0) (by rw [hfind]; simp)
+    have hold : wk.validIng i0.key = none := by unfold World.validIng; rw [hf]; rfl
+    cases hv : wk.valid i0 with
+    | true =>
+      have heq : applyOp (wk, bk) (.ingSet i0) =
+          ({ wk with ings := wk.ings ++ [i0] }, { addLink bk ⟨.ing, i0.key⟩ with add := bk.add ++ [i0] }) := by
+        simp [applyOp, hf, hv]
+      rw [heq]
+      refine ⟨acc_ing_event ha i0.key (fun n => rfl) hother ?_ ?_ ?_ ?_ ?_ ?_ ?_ (Or.inr trivial) ?_ ?_ ?_, hwf'⟩
+      · intro n hn; exact mem_addLink.mpr (Or.inl hn)
+      · intro k hk
+        rcases mem_addLink.mp hk with h | h
+        · exact Or.inl h
+        · right; injection h
+      · intro i hi; simp [(addLink_fields bk _).1, hi]
+      · intro i hi; simp only [(addLink_fields bk _).2.1]; exact hi
+      · intro i hi
+        simp only [List.mem_append, List.mem_singleton, (addLink_fields bk _).2.1] at hi
+        rcases hi with (hi | hi) | hi
+        · exact Or.inl (Or.inl hi)
+        · right; rw [hi]
+        · exact Or.inl (Or.inr hi)
+      · intro k hk
+        simp only [(addLink_fields bk _).2.2.1] at hk
+        exact Or.inl hk
+      · intro _; exact mem_addLink.mpr (Or.inr rfl)
+      · intro _; exact mem_addLink.mpr (Or.inr rfl)
+      · intro _; exact mem_addLink.mpr (Or.inr rfl)
+      · intro i _ hvk
+        rw [hat] at hvk
+        simp [Option.filter, hv] at hvk
+        left; simp [hvk]
+    | false =>
+      have heq : applyOp (wk, bk) (.ingSet i0) = ({ wk with ings := wk.ings ++ [i0] }, bk) := by
+        simp [applyOp, hf, hv]
+      rw [heq]
+      refine ⟨acc_ing_event ha i0.key (fun n => rfl) hother (fun n hn => hn) (fun k hk => Or.inl hk)
+        (fun i hi => hi) (fun i hi => hi) (fun i hi => Or.inl hi) (fun k hk => Or.inl hk) ?_ (Or.inr trivial)
+        ?_ ?_ ?_, hwf'⟩
+      · intro h; rw [hold, hat] at h; simp [Option.filter, hv] at h
+      · rintro ⟨i, hi, hn⟩; exact absurd hi hn
+      · rintro ⟨k, hk, hn⟩; exact absurd hk hn
+      · intro i _ hvk; rw [hat] at hvk; simp [Option.filter, hv] at hvk
+  | some old =>
+    have holdk : old.key = i0.key := by
+      have := List.find?_some (by rw [← findIng_eq]; exact hf : wk.ings.find? _ = some old)
+      simpa using this
+    generalize hi : ({ i0 with created := old.created } : Ingress) = i
+    have hik : i.key = i0.key := by rw [← hi]; rfl
+    have hfind : ∀ k, ({ wk with ings := replaceBy Ingress.key i wk.ings } : World).findIng k =
+        if k = i.key then some i else wk.findIng k := by
+      intro k
+      rw [findIng_eq, findIng_eq]
+      exact find_replaceBy Ingress.key i wk.ings k
+    have hwf' : ({ wk with ings := replaceBy Ingress.key i wk.ings } : World).WF :=
+      nodup_replaceBy Ingress.key i wk.ings hwf
+    have hother : ∀ k, k ≠ i0.key →
+        ({ wk with ings := replaceBy Ingress.key i wk.ings } : World).validIng k = wk.validIng k := by
+      intro k hk
+      exact validIng_other wk _ k i0.key (by rw [hfind]; simp [hik, hk])
+    have hat : ({ wk with ings := replaceBy Ingress.key i wk.ings } : World).validIng i0.key =
+        (some i).filter wk.valid :=
+      validIng_at wk _ i0.key (some i) (by rw [hfind]; simp [hik])
+    have hold : wk.validIng i0.key = (some old).filter wk.valid := by
+      unfold World.validIng; rw [hf]
+    cases hov : wk.valid old <;> cases hnv : wk.valid i
+    · have heq : applyOp (wk, bk) (.ingSet i0) = ({ wk with ings := replaceBy Ingress.key i wk.ings }, bk) := by
+        simp [applyOp, hf, hi, hov, hnv, (addLink_fields bk _).1, (addLink_fields bk _).2.1, (addLink_fields bk _).2.2.1]
+      rw [heq]
+      refine ⟨acc_ing_event ha i0.key (fun n => rfl) hother (fun n hn => hn) (fun k hk => Or.inl hk)
+        (fun i hi => hi) (fun i hi => hi) (fun i hi => Or.inl hi) (fun k hk => Or.inl hk) ?_ (Or.inr trivial)
+        ?_ ?_ ?_, hwf'⟩
+      · intro h; rw [hold, hat] at h; simp [Option.filter, hov, hnv] at h
+      · rintro ⟨j, hj, hn⟩; exact absurd hj hn
+      · rintro ⟨k, hk, hn⟩; exact absurd hk hn
+      · intro j _ hvk; rw [hat] at hvk; simp [Option.filter, hnv] at hvk
+    · have heq : applyOp (wk, bk) (.ingSet i0) =
+          ({ wk with ings := replaceBy Ingress.key i wk.ings },
+            { addLink bk ⟨.ing, i.key⟩ with add := bk.add ++ [i] }) := by
+        simp [applyOp, hf, hi, hov, hnv, (addLink_fields bk _).1, (addLink_fields bk _).2.1, (addLink_fields bk _).2.2.1]
+      rw [heq, hik]
+      refine ⟨acc_ing_event ha i0.key (fun n => rfl) hother ?_ ?_ ?_ ?_ ?_ ?_ ?_ (Or.inr trivial) ?_ ?_ ?_, hwf'⟩
+      · intro n hn; exact mem_addLink.mpr (Or.inl hn)
+      · intro k hk
+        rcases mem_addLink.mp hk with h | h
+        · exact Or.inl h
+        · right; injection h
+      · intro j hj; simp [(addLink_fields bk _).1, hj]
+      · intro j hj; simp only [(addLink_fields bk _).2.1]; exact hj
+      · intro j hj
+        simp only [List.mem_append, List.mem_singleton, (addLink_fields bk _).2.1] at hj
+        rcases hj with (hj | hj) | hj
+        · exact Or.inl (Or.inl hj)
+        · right; rw [hj, hik]
+        · exact Or.inl (Or.inr hj)
+      · intro k hk
+        simp only [(addLink_fields bk _).2.2.1] at hk
+        exact Or.inl hk
+      · intro _; exact mem_addLink.mpr (Or.inr rfl)
+      · intro _; exact mem_addLink.mpr (Or.inr rfl)
+      · intro _; exact mem_addLink.mpr (Or.inr rfl)
+      · intro j _ hvk
+        rw [hat] at hvk
+        simp [Option.filter, hnv] at hvk
+        left; simp [hvk]
+    · have heq : applyOp (wk, bk) (.ingSet i0) =
+          ({ wk with ings := replaceBy Ingress.key i wk.ings },
+            { addLink bk ⟨.ing, i.key⟩ with del := bk.del ++ [old.key] }) := by
+        simp [applyOp, hf, hi, hov, hnv, (addLink_fields bk _).1, (addLink_fields bk _).2.1, (addLink_fields bk _).2.2.1]
+      rw [heq, hik, holdk]
+      refine ⟨acc_ing_event ha i0.key (fun n => rfl) hother ?_ ?_ ?_ ?_ ?_ ?_ ?_ (Or.inr trivial) ?_ ?_ ?_, hwf'⟩
+      · intro n hn; exact mem_addLink.mpr (Or.inl hn)
+      · intro k hk
+        rcases mem_addLink.mp hk with h | h
+        · exact Or.inl h
+        · right; injection h
+      · intro j hj; simp only [(addLink_fields bk _).1]; exact hj
+      · intro j hj; simp only [(addLink_fields bk _).2.1]; exact hj
+      · intro j hj
+        simp only [(addLink_fields bk _).1, (addLink_fields bk _).2.1] at hj
+        exact Or.inl hj
+      · intro k hk
+        simp only [List.mem_append, List.mem_singleton, (addLink_fields bk _).2.2.1] at hk
+        rcases hk with hk | hk
+        · exact Or.inl hk
+        · exact Or.inr hk
+      · intro _; exact mem_addLink.mpr (Or.inr rfl)
+      · intro _; exact mem_addLink.mpr (Or.inr rfl)
+      · intro _; exact mem_addLink.mpr (Or.inr rfl)
+      · intro j _ hvk; rw [hat] at hvk; simp [Option.filter, hnv] at hvk
+    · have heq : applyOp (wk, bk) (.ingSet i0) =
+          ({ wk with ings := replaceBy Ingress.key i wk.ings },
+            { addLink bk ⟨.ing, i.key⟩ with upd := bk.upd ++ [i] }) := by
+        simp [applyOp, hf, hi, hov, hnv, (addLink_fields bk _).1, (addLink_fields bk _).2.1, (addLink_fields bk _).2.2.1]
+      rw [heq, hik]
+      refine ⟨acc_ing_event ha i0.key (fun n => rfl) hother ?_ ?_ ?_ ?_ ?_ ?_ ?_ (Or.inr trivial) ?_ ?_ ?_, hwf'⟩
+      · intro n hn; exact mem_addLink.mpr (Or.inl hn)
+      · intro k hk
+        rcases mem_addLink.mp hk with h | h
+        · exact Or.inl h
+        · right; injection h
+      · intro j hj; simp only [(addLink_fields bk _).1]; exact hj
+      · intro j hj; simp [(addLink_fields bk _).2.1, hj]
+      · intro j hj
+        simp only [List.mem_append, List.mem_singleton, (addLink_fields bk _).1, (addLink_fields bk _).2.1] at hj
+        rcases hj with hj | hj | hj
+        · exact Or.inl (Or.inl hj)
+        · exact Or.inl (Or.inr hj)
+        · right; rw [hj, hik]
+      · intro k hk
+        simp only [(addLink_fields bk _).2.2.1] at hk
+        exact Or.inl hk
+      · intro _; exact mem_addLink.mpr (Or.inr rfl)
+      · intro _; exact mem_addLink.mpr (Or.inr rfl)
+      · intro _; exact mem_addLink.mpr (Or.inr rfl)
+      · intro j _ hvk
+        rw [hat] at hvk
+        simp [Option.filter, hnv] at hvk
+        right; simp [hvk]
+
+theorem acc_ingDel {w wk : World} {bk : Batch} (k0 : String) (ha : Acc w wk bk) (hwf : wk.WF) :
+    Acc w (applyOp (wk, bk) (.ingDel k0)).1 (applyOp (wk, bk) (.ingDel k0)).2 ∧
+      (applyOp (wk, bk) (.ingDel k0)).1.WF := by
+  cases hf : wk.findIng k0 with
+  | none =>
+    have heq : applyOp (wk, bk) (.ingDel k0) = (wk, bk) := by simp [applyOp, hf]
+    rw [heq]; exact ⟨ha, hwf⟩
+  | some old =>
+    have hfind : ∀ k, ({ wk with ings := wk.ings.filter (·.key ≠ k0) } : World).findIng k =
+        if k = k0 then none else wk.findIng k := by
+      intro k
+      rw [findIng_eq, findIng_eq]
+      exact find_filter_ne Ingress.key k0 wk.ings k
+    have hwf' : ({ wk with ings := wk.ings.filter (·.key ≠ k0) } : World).WF := by
+      unfold World.WF at *
+      exact hwf.sublist (List.Sublist.map _ List.filter_sublist)
+    have hother : ∀ k, k ≠ k0 →
+        ({ wk with ings := wk.ings.filter (·.key ≠ k0) } : World).validIng k = wk.validIng k := by
+      intro k hk
+      exact validIng_other wk _ k k0 (by rw [hfind]; simp [hk])
+    have hat : ({ wk with ings := wk.ings.filter (·.key ≠ k0) } : World).validIng k0 = none := by
+      have := validIng_at wk (wk.ings.filter (·.key ≠ k0)) k0 none (by rw [hfind]; simp)
+      simpa [Option.filter] using this
+    have hold : wk.validIng k0 = (some old).filter wk.valid := by
+      unfold World.validIng; rw [hf]
+    cases hov : wk.valid old with
+    | false =>
+      have heq : applyOp (wk, bk) (.ingDel k0) = ({ wk with ings := wk.ings.filter (·.key ≠ k0) }, bk) := by
+        simp [applyOp, hf, hov]
+      rw [heq]
+      refine ⟨acc_ing_event ha k0 (fun n => rfl) hother (fun n hn => hn) (fun k hk => Or.inl hk)
+        (fun i hi => hi) (fun i hi => hi) (fun i hi => Or.inl hi) (fun k hk => Or.inl hk) ?_ (Or.inr trivial)
+        ?_ ?_ ?_, hwf'⟩
+      · intro h; rw [hold, hat] at h; simp [Option.filter, hov] at h
+      · rintro ⟨j, hj, hn⟩; exact absurd hj hn
+      · rintro ⟨k, hk, hn⟩; exact absurd hk hn
+      · intro j _ hvk; rw [hat] at hvk; cases hvk
+    | true =>
+      have heq : applyOp (wk, bk) (.ingDel k0) =
+          ({ wk with ings := wk.ings.filter (·.key ≠ k0) },
+            { addLink bk ⟨.ing, k0⟩ with del := bk.del ++ [k0] }) := by
+        simp [applyOp, hf, hov]
+      rw [heq]
+      refine ⟨acc_ing_event ha k0 (fun n => rfl) hother ?_ ?_ ?_ ?_ ?_ ?_ ?_ (Or.inr trivial) ?_ ?_ ?_, hwf'⟩
+      · intro n hn; exact mem_addLink.mpr (Or.inl hn)
+      · intro k hk
+        rcases mem_addLink.mp hk with h | h
+        · exact Or.inl h
+        · right; injection h
+      · intro j hj; simp only [(addLink_fields bk _).1]; exact hj
+      · intro j hj; simp only [(addLink_fields bk _).2.1]; exact hj
+      · intro j hj
+        simp only [(addLink_fields bk _).1, (addLink_fields bk _).2.1] at hj
+        exact Or.inl hj
+      · intro k hk
+        simp only [List.mem_append, List.mem_singleton, (addLink_fields bk _).2.2.1] at hk
+        rcases hk with hk | hk
+        · exact Or.inl hk
+        · exact Or.inr hk
+      · intro _; exact mem_addLink.mpr (Or.inr rfl)
+      · intro _; exact mem_addLink.mpr (Or.inr rfl)
+      · intro _; exact mem_addLink.mpr (Or.inr rfl)
+      · intro j _ hvk; rw [hat] at hvk; cases hvk
+
+/-! ### the other kinds -/
+
+theorem read_upd (wk wk' : World) (n : Node)
+    (hs : n.kind = .svc → wk'.findSvc n.name = wk.findSvc n.name)
+    (he : n.kind = .ep → wk'.findEp n.name = wk.findEp n.name)
+    (hx : n.kind = .sec → wk'.findSec n.name = wk.findSec n.name) : wk'.read n = wk.read n := by
+  obtain ⟨kd, nm⟩ := n
+  cases kd <;> simp only [World.read]
+  · rw [hs rfl]
+  · rw [he rfl]
+  · rw [hx rfl]
+
+theorem ing_link_of_addLink {bk : Batch} {kd : Kind} {nm k : String} (hkd : kd ≠ .ing)
+    (h : (⟨.ing, k⟩ : Node) ∈ (addLink bk ⟨kd, nm⟩).links) : (⟨.ing, k⟩ : Node) ∈ bk.links := by
+  rcases mem_addLink.mp h with h | h
+  · exact h
+  · injection h with h1 _; exact absurd h1.symm hkd
+
+/-- a change of one object of kind svc/ep/sec (or of nothing the converters read) with its link -/
+theorem acc_obj {w wk wk' : World} {bk : Batch} (ha : Acc w wk bk) (kd : Kind) (hkd : kd ≠ .ing) (nm : String)
+    (hings : wk'.ings = wk.ings) (hcls : wk'.clss = wk.clss)
+    (hch : ∀ n, n ≠ (⟨kd, nm⟩ : Node) → wk'.read n = wk.read n) :
+    Acc w wk' (addLink bk ⟨kd, nm⟩) :=
+  acc_other ha hings hcls (fun n hn => mem_addLink.mpr (Or.inl hn)) (addLink_fields _ _).1
+    (addLink_fields _ _).2.1 (addLink_fields _ _).2.2.1 (fun k hk => ing_link_of_addLink hkd hk)
+    (fun n hn => by
+      by_cases h : n = ⟨kd, nm⟩
+      · exact mem_addLink.mpr (Or.inr h)
+      · exact absurd (hch n h).symm hn)
+
+/-- nothing the converters read changes -/
+theorem acc_same {w wk wk' : World} {bk : Batch} (ha : Acc w wk bk)
+    (hings : wk'.ings = wk.ings) (hcls : wk'.clss = wk.clss) (hch : ∀ n, wk'.read n = wk.read n) :
+    Acc w wk' bk :=
+  acc_other ha hings hcls (fun n hn => hn) rfl rfl rfl (fun k hk => hk) (fun n hn => absurd (hch n).symm hn)
+
+theorem acc_svcSet {w wk : World} {bk : Batch} (s : Service) (ha : Acc w wk bk) :
+    Acc w (applyOp (wk, bk) (.svcSet s)).1 (applyOp (wk, bk) (.svcSet s)).2 := by
+  have heq : applyOp (wk, bk) (.svcSet s) =
+      ({ wk with svcs := replaceBy Service.key s wk.svcs }, addLink bk ⟨.svc, s.key⟩) := rfl
+  rw [heq]
+  apply acc_obj (wk' := ({ wk with svcs := replaceBy Service.key s wk.svcs } : World)) ha .svc
+    (by intro h; cases h) s.key rfl rfl
+  intro n hn
+  apply read_upd
+  · intro hk
+    unfold World.findSvc
+    simp only []
+    rw [find_replaceBy Service.key s wk.svcs n.name]
+    have : n.name ≠ s.key := fun e => hn (by cases n; simp_all)
+    simp [this]
+  · intro _; rfl
+  · intro _; rfl
+
+theorem acc_secSet {w wk : World} {bk : Batch} (s : Secret) (ha : Acc w wk bk) :
+    Acc w (applyOp (wk, bk) (.secSet s)).1 (applyOp (wk, bk) (.secSet s)).2 := by
+  have heq : applyOp (wk, bk) (.secSet s) =
+      ({ wk with secs := replaceBy Secret.key s wk.secs }, addLink bk ⟨.sec, s.key⟩) := rfl
+  rw [heq]
+  apply acc_obj (wk' := ({ wk with secs := replaceBy Secret.key s wk.secs } : World)) ha .sec
+    (by intro h; cases h) s.key rfl rfl
+  intro n hn
+  apply read_upd
+  · intro _; rfl
+  · intro _; rfl
+  · intro hk
+    unfold World.findSec
+    simp only []
+    rw [find_replaceBy Secret.key s wk.secs n.name]
+    have : n.name ≠ s.key := fun e => hn (by cases n; simp_all)
+    simp [this]
+
+theorem acc_secDel {w wk : World} {bk : Batch} (k0 : String) (ha : Acc w wk bk) :
+    Acc w (applyOp (wk, bk) (.secDel k0)).1 (applyOp (wk, bk) (.secDel k0)).2 := by
+  cases hf : wk.findSec k0 with
+  | none =>
+    have heq : applyOp (wk, bk) (.secDel k0) = (wk, bk) := by simp [applyOp, hf]
+    rw [heq]; exact ha
+  | some old =>
+    have heq : applyOp (wk, bk) (.secDel k0) =
+        ({ wk with secs := wk.secs.filter (·.key ≠ k0) }, addLink bk ⟨.sec, k0⟩) := by simp [applyOp, hf]
+    rw [heq]
+    apply acc_obj (wk' := ({ wk with secs := wk.secs.filter (·.key ≠ k0) } : World)) ha .sec
+      (by intro h; cases h) k0 rfl rfl
+    intro n hn
+    apply read_upd
+    · intro _; rfl
+    · intro _; rfl
+    · intro hk
+      unfold World.findSec
+      simp only []
+      rw [find_filter_ne Secret.key k0 wk.secs n.name]
+      have : n.name ≠ k0 := fun e => hn (by cases n; simp_all)
+      simp [this]
+
+theorem acc_epDel {w wk : World} {bk : Batch} (k0 : String) (ha : Acc w wk bk) :
+    Acc w (applyOp (wk, bk) (.epDel k0)).1 (applyOp (wk, bk) (.epDel k0)).2 := by
+  cases hf : wk.findEp k0 with
+  | none =>
+    have heq : applyOp (wk, bk) (.epDel k0) = (wk, bk) := by simp [applyOp, hf]
+    rw [heq]; exact ha
+  | some old =>
+    have heq : applyOp (wk, bk) (.epDel k0) =
+        ({ wk with eps := wk.eps.filter (·.key ≠ k0) }, addLink bk ⟨.ep, k0⟩) := by simp [applyOp, hf]
+    rw [heq]
+    apply acc_obj (wk' := ({ wk with eps := wk.eps.filter (·.key ≠ k0) } : World)) ha .ep
+      (by intro h; cases h) k0 rfl rfl
+    intro n hn
+    apply read_upd
+    · intro _; rfl
+    · intro hk
+      unfold World.findEp
+      simp only []
+      rw [find_filter_ne Endpoints.key k0 wk.eps n.name]
+      have : n.name ≠ k0 := fun e => hn (by cases n; simp_all)
+      simp [this]
+    · intro _; rfl
+
+theorem mkEndpoints_key (w : World) (k : String) (r nr : List (String × String)) :
+    (mkEndpoints w k r nr).key = k := by
+  unfold mkEndpoints; split <;> rfl
+
+theorem acc_epSet {w wk : World} {bk : Batch} (k0 : String) (ready notReady : List (String × String))
+    (ha : Acc w wk bk) :
+    Acc w (applyOp (wk, bk) (.epSet k0 ready notReady)).1 (applyOp (wk, bk) (.epSet k0 ready notReady)).2 := by
+  have hek := mkEndpoints_key wk k0 ready notReady
+  have hread : ∀ n : Node, n ≠ ⟨.ep, k0⟩ →
+      ({ wk with eps := replaceBy Endpoints.key (mkEndpoints wk k0 ready notReady) wk.eps } : World).read n =
+        wk.read n := by
+    intro n hn
+    apply read_upd
+    · intro _; rfl
+    · intro hk
+      unfold World.findEp
+      simp only []
+      rw [find_replaceBy Endpoints.key (mkEndpoints wk k0 ready notReady) wk.eps n.name]
+      have : n.name ≠ (mkEndpoints wk k0 ready notReady).key := fun e' => hn (by cases n; simp_all)
+      simp [this]
+    · intro _; rfl
+  cases hf : wk.findEp k0 with
+  | none =>
+    have heq : applyOp (wk, bk) (.epSet k0 ready notReady) =
+        ({ wk with eps := replaceBy Endpoints.key (mkEndpoints wk k0 ready notReady) wk.eps },
+          addLink bk ⟨.ep, k0⟩) := by
+      simp [applyOp, hf]
+    rw [heq]
+    exact acc_obj (wk' := ({ wk with eps := replaceBy Endpoints.key (mkEndpoints wk k0 ready notReady) wk.eps } : World))
+      ha .ep (by intro h; cases h) k0 rfl rfl hread
+  | some old =>
+    by_cases hoe : old = mkEndpoints wk k0 ready notReady
+    · have heq : applyOp (wk, bk) (.epSet k0 ready notReady) =
+          ({ wk with eps := replaceBy Endpoints.key (mkEndpoints wk k0 ready notReady) wk.eps }, bk) := by
+        simp [applyOp, hf, hoe]
+      rw [heq]
+      apply acc_same (wk' := ({ wk with eps := replaceBy Endpoints.key (mkEndpoints wk k0 ready notReady) wk.eps } : World))
+        ha rfl rfl
+      intro n
+      by_cases hn : n = ⟨.ep, k0⟩
+      · subst hn
+        simp only [World.read]
+        unfold World.findEp at hf ⊢
+        simp only []
+        rw [find_replaceBy Endpoints.key (mkEndpoints wk k0 ready notReady) wk.eps k0, hf, hoe]
+        simp [hek]
+      · exact hread n hn
+    · have heq : applyOp (wk, bk) (.epSet k0 ready notReady) =
+          ({ wk with eps := replaceBy Endpoints.key (mkEndpoints wk k0 ready notReady) wk.eps },
+            addLink bk ⟨.ep, k0⟩) := by
+        simp [applyOp, hf, hoe]
+      rw [heq]
+      exact acc_obj (wk' := ({ wk with eps := replaceBy Endpoints.key (mkEndpoints wk k0 ready notReady) wk.eps } : World))
+        ha .ep (by intro h; cases h) k0 rfl rfl hread
+
+theorem acc_svcDel {w wk : World} {bk : Batch} (k0 : String) (ha : Acc w wk bk) :
+    Acc w (applyOp (wk, bk) (.svcDel k0)).1 (applyOp (wk, bk) (.svcDel k0)).2 := by
+  cases hf : wk.findSvc k0 with
+  | none =>
+    have heq : applyOp (wk, bk) (.svcDel k0) = (wk, bk) := by simp [applyOp, hf]
+    rw [heq]; exact ha
+  | some sv =>
+    have hsvc : ∀ nm, nm ≠ k0 →
+        ({ wk with svcs := wk.svcs.filter (·.key ≠ k0), eps := wk.eps.filter (·.key ≠ k0) } : World).findSvc nm =
+          wk.findSvc nm := by
+      intro nm hnm
+      unfold World.findSvc
+      simp only []
+      rw [find_filter_ne Service.key k0 wk.svcs nm]
+      simp [hnm]
+    have hep : ∀ nm, nm ≠ k0 →
+        ({ wk with svcs := wk.svcs.filter (·.key ≠ k0), eps := wk.eps.filter (·.key ≠ k0) } : World).findEp nm =
+          wk.findEp nm := by
+      intro nm hnm
+      unfold World.findEp
+      simp only []
+      rw [find_filter_ne Endpoints.key k0 wk.eps nm]
+      simp [hnm]
+    cases hfe : wk.findEp k0 with
+    | none =>
+      have heq : applyOp (wk, bk) (.svcDel k0) =
+          ({ wk with svcs := wk.svcs.filter (·.key ≠ k0), eps := wk.eps.filter (·.key ≠ k0) },
+            addLink bk ⟨.svc, k0⟩) := by simp [applyOp, hf, hfe]
+      rw [heq]
+      apply acc_obj (wk' := ({ wk with svcs := wk.svcs.filter (·.key ≠ k0), eps := wk.eps.filter (·.key ≠ k0) } : World))
+        ha .svc (by intro h; cases h) k0 rfl rfl
+      intro n hn
+      apply read_upd
+      · intro hk
+        exact hsvc n.name (fun e => hn (by cases n; simp_all))
+      · intro hk
+        by_cases hnm : n.name = k0
+        · unfold World.findEp at hfe ⊢
+          simp only []
+          rw [hnm, find_filter_ne Endpoints.key k0 wk.eps k0, hfe]
+          simp
+        · exact hep n.name hnm
+      · intro _; rfl
+    | some ep0 =>
+      have heq : applyOp (wk, bk) (.svcDel k0) =
+          ({ wk with svcs := wk.svcs.filter (·.key ≠ k0), eps := wk.eps.filter (·.key ≠ k0) },
+            addLink (addLink bk ⟨.svc, k0⟩) ⟨.ep, k0⟩) := by simp [applyOp, hf, hfe]
+      rw [heq]
+      -- two steps: the service, then its endpoints
+      have h1 : Acc w ({ wk with svcs := wk.svcs.filter (·.key ≠ k0) } : World) (addLink bk ⟨.svc, k0⟩) := by
+        apply acc_obj (wk' := ({ wk with svcs := wk.svcs.filter (·.key ≠ k0) } : World)) ha .svc
+          (by intro h; cases h) k0 rfl rfl
+        intro n hn
+        apply read_upd
+        · intro hk
+          unfold World.findSvc
+          simp only []
+          rw [find_filter_ne Service.key k0 wk.svcs n.name]
+          have : n.name ≠ k0 := fun e => hn (by cases n; simp_all)
+          simp [this]
+        · intro _; rfl
+        · intro _; rfl
+      apply acc_obj (wk' := ({ wk with svcs := wk.svcs.filter (·.key ≠ k0), eps := wk.eps.filter (·.key ≠ k0) } : World))
+        h1 .ep (by intro h; cases h) k0 rfl rfl
+      intro n hn
+      apply read_upd
+      · intro _; rfl
+      · intro hk
+        unfold World.findEp
+        simp only []
+        rw [find_filter_ne Endpoints.key k0 wk.eps n.name]
+        have : n.name ≠ k0 := fun e => hn (by cases n; simp_all)
+        simp [this]
+      · intro _; rfl
+
+theorem acc_cmSet {w wk : World} {bk : Batch} (d : List (String × String)) (ha : Acc w wk bk) :
+    Acc w (applyOp (wk, bk) (.cmSet d)).1 (applyOp (wk, bk) (.cmSet d)).2 := by
+  have heq : applyOp (wk, bk) (.cmSet d) =
+      ({ wk with cm := some d },
+        { addLink bk ⟨.cm, "ingress-controller/haproxy-ingress"⟩ with cmNew := some d }) := rfl
+  rw [heq]
+  have h := acc_obj (wk' := ({ wk with cm := some d } : World)) ha .cm (by intro h; cases h)
+    "ingress-controller/haproxy-ingress" rfl rfl (fun n _ => rfl)
+  exact ⟨h.obj, h.ing, h.carried, h.events, h.del⟩
+
+theorem acc_podSet {w wk : World} {bk : Batch} (p : Pod) (ha : Acc w wk bk) :
+    Acc w (applyOp (wk, bk) (.podSet p)).1 (applyOp (wk, bk) (.podSet p)).2 := by
+  cases hf : wk.findPod p.key with
+  | none =>
+    have heq : applyOp (wk, bk) (.podSet p) = ({ wk with pods := replaceBy Pod.key p wk.pods }, bk) := by
+      simp [applyOp, hf]
+    rw [heq]
+    exact acc_same (wk' := ({ wk with pods := replaceBy Pod.key p wk.pods } : World)) ha rfl rfl (fun n => rfl)
+  | some old =>
+    by_cases ht : (old.term || p.term) = true
+    · have heq : applyOp (wk, bk) (.podSet p) =
+          ({ wk with pods := replaceBy Pod.key p wk.pods }, addLink bk ⟨.pod, p.key⟩) := by
+        simp [applyOp, hf, ht]
+      rw [heq]
+      exact acc_obj (wk' := ({ wk with pods := replaceBy Pod.key p wk.pods } : World)) ha .pod
+        (by intro h; cases h) p.key rfl rfl (fun n _ => rfl)
+    · have heq : applyOp (wk, bk) (.podSet p) = ({ wk with pods := replaceBy Pod.key p wk.pods }, bk) := by
+        simp only [Bool.not_eq_true] at ht
+        simp [applyOp, hf, ht]
+      rw [heq]
+      exact acc_same (wk' := ({ wk with pods := replaceBy Pod.key p wk.pods } : World)) ha rfl rfl (fun n => rfl)
+
+theorem acc_podDel {w wk : World} {bk : Batch} (k0 : String) (ha : Acc w wk bk) :
+    Acc w (applyOp (wk, bk) (.podDel k0)).1 (applyOp (wk, bk) (.podDel k0)).2 := by
+  cases hf : wk.findPod k0 with
+  | none =>
+    have heq : applyOp (wk, bk) (.podDel k0) = (wk, bk) := by simp [applyOp, hf]
+    rw [heq]; exact ha
+  | some old =>
+    have heq : applyOp (wk, bk) (.podDel k0) =
+        ({ wk with pods := wk.pods.filter (·.key ≠ k0) }, addLink bk ⟨.pod, k0⟩) := by simp [applyOp, hf]
+    rw [heq]
+    exact acc_obj (wk' := ({ wk with pods := wk.pods.filter (·.key ≠ k0) } : World)) ha .pod
+      (by intro h; cases h) k0 rfl rfl (fun n _ => rfl)
+
+/-! ### IngressClass events: either they ask for a full sync or no ingress changes validity -/
+
+theorem valid_of_findCls {wk wk' : World}
+    (h : ∀ c, (wk'.findCls c == some ourController) = (wk.findCls c == some ourController)) (i : Ingress) :
+    wk'.valid i = wk.valid i := by
+  unfold World.valid
+  cases i.classAnn with
+  | some a => rfl
+  | none =>
+    cases i.className with
+    | none => rfl
+    | some c => exact h c
+
+theorem acc_cls {w wk wk' : World} {bk : Batch} (ha : Acc w wk bk)
+    (hings : wk'.ings = wk.ings) (hsvcs : wk'.svcs = wk.svcs) (heps : wk'.eps = wk.eps) (hsecs : wk'.secs = wk.secs)
+    (hcls : ∀ c, (wk'.findCls c == some ourController) = (wk.findCls c == some ourController)) :
+    Acc w wk' bk := by
+  have hvi : ∀ k, wk'.validIng k = wk.validIng k := by
+    intro k
+    unfold World.validIng World.findIng
+    rw [hings]
+    cases wk.ings.find? (fun x => decide (x.key = k)) with
+    | none => rfl
+    | some j => simp [Option.filter, valid_of_findCls hcls]
+  have hread : ∀ n, wk'.read n = wk.read n := read_congr hsvcs heps hsecs
+  refine ⟨?_, ?_, ?_, ha.events, ha.del⟩
+  · intro n hn; rw [hread] at hn; exact ha.obj n hn
+  · intro k hk; rw [hvi] at hk; exact ha.ing k hk
+  · intro k j hl hvk; rw [hvi] at hvk; exact ha.carried k j hl hvk
+
+theorem acc_clsSet {w wk : World} {bk : Batch} (n c : String) (ha : Acc w wk bk)
+    (hfull : (applyOp (wk, bk) (.clsSet n c)).2.full = false) :
+    Acc w (applyOp (wk, bk) (.clsSet n c)).1 (applyOp (wk, bk) (.clsSet n c)).2 := by
+  by_cases hv : ((wk.findCls n == some ourController) || (c == ourController)) = true
+  · have heq : applyOp (wk, bk) (.clsSet n c) =
+        ({ wk with clss := replaceBy (·.1) (n, c) wk.clss }, { addLink bk ⟨.cls, n⟩ with full := true }) := by
+      simp only [applyOp]
+      rw [if_pos hv]
+    rw [heq] at hfull
+    simp at hfull
+  · have heq : applyOp (wk, bk) (.clsSet n c) = ({ wk with clss := replaceBy (·.1) (n, c) wk.clss }, bk) := by
+      simp only [applyOp]
+      rw [if_neg hv]
+    rw [heq]
+    simp only [Bool.or_eq_true, not_or, Bool.not_eq_true] at hv
+    apply acc_cls (wk' := ({ wk with clss := replaceBy (·.1) (n, c) wk.clss } : World)) ha rfl rfl rfl rfl
+    intro cn
+    unfold World.findCls
+    simp only []
+    rw [find_replaceBy (fun x : String × String => x.1) (n, c) wk.clss cn]
+    by_cases hcn : cn = n
+    · have h1 := hv.1
+      have h2 := hv.2
+      unfold World.findCls at h1
+      rw [hcn]
+      simp only [if_true, Option.map_some]
+      rw [h1]
+      simp [h2]
+    · simp [hcn]
+
+theorem acc_clsDel {w wk : World} {bk : Batch} (n : String) (ha : Acc w wk bk)
+    (hfull : (applyOp (wk, bk) (.clsDel n)).2.full = false) :
+    Acc w (applyOp (wk, bk) (.clsDel n)).1 (applyOp (wk, bk) (.clsDel n)).2 := by
+  cases hf : wk.findCls n with
+  | none =>
+    have heq : applyOp (wk, bk) (.clsDel n) = (wk, bk) := by simp [applyOp, hf]
+    rw [heq]; exact ha
+  | some c =>
+    by_cases hv : (c == ourController) = true
+    · have heq : applyOp (wk, bk) (.clsDel n) =
+          ({ wk with clss := wk.clss.filter (·.1 ≠ n) }, { addLink bk ⟨.cls, n⟩ with full := true }) := by
+        simp only [applyOp, hf]
+        rw [if_pos hv]
+      rw [heq] at hfull
+      simp at hfull
+    · have heq : applyOp (wk, bk) (.clsDel n) = ({ wk with clss := wk.clss.filter (·.1 ≠ n) }, bk) := by
+        simp only [applyOp, hf]
+        rw [if_neg hv]
+      rw [heq]
+      apply acc_cls (wk' := ({ wk with clss := wk.clss.filter (·.1 ≠ n) } : World)) ha rfl rfl rfl rfl
+      intro cn
+      unfold World.findCls
+      simp only []
+      rw [find_filter_ne (fun x : String × String => x.1) n wk.clss cn]
+      by_cases hcn : cn = n
+      · subst hcn
+        have h1 := hf
+        unfold World.findCls at h1
+        simp only [if_true, Option.map_none]
+        rw [h1]
+        simp only [Bool.not_eq_true] at hv
+        simp [hv]
+      · simp [hcn]
+
+/-! ### a batch of operations -/
+
+theorem applyOp_wf {wk : World} {bk : Batch} (op : Op) (hwf : wk.WF) : (applyOp (wk, bk) op).1.WF := by
   cases op with
   | ingSet i0 =>
-    unfold applyOp at hfull ⊢
-    simp only [] at hfull ⊢
     cases hf : wk.findIng i0.key with
     | none =>
-      simp only [hf] at hfull ⊢
-      have hfind : ∀ k, ({ wk with ings := wk.ings ++ [i0] } : World).findIng k =
-          if k = i0.key then some i0 else wk.findIng k := by
-        intro k
-        rw [findIng_eq, findIng_eq]
-        exact find_append_new Ingress.key i0 wk.ings k (by rw [← findIng_eq]; exact hf)
-      have hvalid : ∀ i, ({ wk with ings := wk.ings ++ [i0] } : World).valid i = wk.valid i :=
-        fun i => valid_congr rfl i
       have hwf' : ({ wk with ings := wk.ings ++ [i0] } : World).WF := by
         unfold World.WF at *
         simp only [List.map_append, List.map_cons, List.map_nil]
@@ -217,625 +916,122 @@ theorem acc_step {w wk : World} {bk : Batch} (op : Op) (ha : Acc w wk bk) (hwf :
         simp at hb
         subst hb
         exact fun e => mem_map_key_of_find Ingress.key wk.ings i0.key (by rw [← findIng_eq]; exact hf) (e ▸ ha')
-      have hvi : ∀ k, ({ wk with ings := wk.ings ++ [i0] } : World).validIng k =
-          if k = i0.key then (if wk.valid i0 then some i0 else none) else wk.validIng k := by
-        intro k
-        unfold World.validIng
-        rw [hfind]
-        by_cases hk : k = i0.key
-        · simp [hk, Option.filter, hvalid]
-        · simp only [hk, if_false]
-          cases wk.findIng k with
-          | none => rfl
-          | some j => simp [Option.filter, hvalid]
-      have hold : wk.validIng i0.key = none := by
-        unfold World.validIng; rw [hf]; rfl
-      by_cases hv : ({ wk with ings := wk.ings ++ [i0] } : World).valid i0 = true
-      · simp only [hv, if_true] at hfull ⊢
-        have hv0 : wk.valid i0 = true := by rw [← hvalid]; exact hv
-        refine ⟨⟨?_, ?_, ?_, ?_, ?_⟩, hwf'⟩
-        · intro n hn
-          exact mem_addLink.mpr (Or.inl (ha.obj n hn))
-        · intro k hk
-          rw [hvi] at hk
-          by_cases hke : k = i0.key
-          · exact mem_addLink.mpr (Or.inr (by rw [hke]))
-          · simp only [hke, if_false] at hk
-            exact mem_addLink.mpr (Or.inl (ha.ing k hk))
-        · intro k i hl hvk
-          rw [hvi] at hvk
-          simp only [(addLink_fields bk _).2.1]
-          by_cases hke : k = i0.key
-          · simp [hke, hv0] at hvk
-            left; simp [hvk]
-          · simp only [hke, if_false] at hvk
-            rcases mem_addLink.mp hl with hl | hl
-            · rcases ha.carried k i hl hvk with h | h
-              · left; simp [(addLink_fields bk _).1, h]
-              · right; exact h
-            · exact absurd (by injection hl) hke
-        · intro i hi
-          simp only [(addLink_fields bk _).2.1] at hi
-          rcases hi with hi | hi
-          · simp only [List.mem_append, (addLink_fields bk _).1] at hi
-            rcases hi with hi | hi
-            · exact mem_addLink.mpr (Or.inl (ha.events i (Or.inl hi)))
-            · simp at hi; subst hi; exact mem_addLink.mpr (Or.inr rfl)
-          · exact mem_addLink.mpr (Or.inl (ha.events i (Or.inr hi)))
-        · intro k hk
-          simp only [(addLink_fields bk _).2.2.1] at hk
-          exact mem_addLink.mpr (Or.inl (ha.del k hk))
-      · simp only [hv] at hfull ⊢
-        have hv0 : wk.valid i0 = false := by
-          rw [← hvalid]; simpa using hv
-        refine ⟨⟨ha.obj, ?_, ?_, ha.events, ha.del⟩, hwf'⟩
-        · intro k hk
-          rw [hvi] at hk
-          by_cases hke : k = i0.key
-          · simp [hke, hv0, hold] at hk
-          · simp only [hke, if_false] at hk
-            exact ha.ing k hk
-        · intro k i hl hvk
-          rw [hvi] at hvk
-          by_cases hke : k = i0.key
-          · simp [hke, hv0] at hvk
-          · simp only [hke, if_false] at hvk
-            exact ha.carried k i hl hvk
+      cases hv : wk.valid i0 <;> simp [applyOp, hf, hv] <;> exact hwf'
     | some old =>
-      simp only [hf] at hfull ⊢
-      have holdk : old.key = i0.key := by
-        have := List.find?_some (by rw [← findIng_eq]; exact hf : wk.ings.find? _ = some old)
-        simpa using this
-      generalize hi : ({ i0 with created := old.created } : Ingress) = i at hfull ⊢
-      have hik : i.key = i0.key := by rw [← hi]; rfl
-      have hfind : ∀ k, ({ wk with ings := replaceBy Ingress.key i wk.ings } : World).findIng k =
-          if k = i.key then some i else wk.findIng k := by
-        intro k
-        rw [findIng_eq, findIng_eq]
-        exact find_replaceBy Ingress.key i wk.ings k
-      have hvalid : ∀ j, ({ wk with ings := replaceBy Ingress.key i wk.ings } : World).valid j = wk.valid j :=
-        fun j => valid_congr rfl j
-      have hwf' : ({ wk with ings := replaceBy Ingress.key i wk.ings } : World).WF :=
-        nodup_replaceBy Ingress.key i wk.ings hwf
-      have hvi : ∀ k, ({ wk with ings := replaceBy Ingress.key i wk.ings } : World).validIng k =
-          if k = i.key then (if wk.valid i then some i else none) else wk.validIng k := by
-        intro k
-        unfold World.validIng
-        rw [hfind]
-        by_cases hk : k = i.key
-        · simp [hk, Option.filter, hvalid]
-        · simp only [hk, if_false]
-          cases wk.findIng k with
-          | none => rfl
-          | some j => simp [Option.filter, hvalid]
-      have hold : wk.validIng i.key = if wk.valid old then some old else none := by
-        unfold World.validIng; rw [hik, hf]; simp [Option.filter]
-      rw [hvalid, hvalid] at hfull ⊢
-      cases hov : wk.valid old <;> cases hnv : wk.valid i
-      · -- neither valid: nothing recorded, nothing changed
-        simp only [hov, hnv, Bool.or_self, Bool.false_eq_true, if_false] at hfull ⊢
-        refine ⟨⟨ha.obj, ?_, ?_, ha.events, ha.del⟩, hwf'⟩
-        · intro k hk
-          rw [hvi] at hk
-          by_cases hke : k = i.key
-          · simp [hke, hnv, hold, hov] at hk
-          · simp only [hke, if_false] at hk
-            exact ha.ing k hk
-        · intro k j hl hvk
-          rw [hvi] at hvk
-          by_cases hke : k = i.key
-          · simp [hke, hnv] at hvk
-          · simp only [hke, if_false] at hvk
-            exact ha.carried k j hl hvk
-      · -- becomes valid: add
-        simp only [hov, hnv, Bool.false_or, if_true, Bool.false_and, Bool.false_eq_true, if_false] at hfull ⊢
-        refine ⟨⟨?_, ?_, ?_, ?_, ?_⟩, hwf'⟩
-        · intro n hn; exact mem_addLink.mpr (Or.inl (ha.obj n hn))
-        · intro k hk
-          rw [hvi] at hk
-          by_cases hke : k = i.key
-          · exact mem_addLink.mpr (Or.inr (by rw [hke]))
-          · simp only [hke, if_false] at hk
-            exact mem_addLink.mpr (Or.inl (ha.ing k hk))
-        · intro k j hl hvk
-          rw [hvi] at hvk
-          simp only [(addLink_fields bk _).2.1]
-          by_cases hke : k = i.key
-          · simp [hke, hnv] at hvk
-            left; simp [hvk]
-          · simp only [hke, if_false] at hvk
-            rcases mem_addLink.mp hl with hl | hl
-            · rcases ha.carried k j hl hvk with h | h
-              · left; simp [(addLink_fields bk _).1, h]
-              · right; exact h
-            · exact absurd (by injection hl) hke
-        · intro j hj
-          simp only [(addLink_fields bk _).2.1] at hj
-          rcases hj with hj | hj
-          · simp only [List.mem_append, (addLink_fields bk _).1] at hj
-            rcases hj with hj | hj
-            · exact mem_addLink.mpr (Or.inl (ha.events j (Or.inl hj)))
-            · simp at hj; subst hj; exact mem_addLink.mpr (Or.inr rfl)
-          · exact mem_addLink.mpr (Or.inl (ha.events j (Or.inr hj)))
-        · intro k hk
-          simp only [(addLink_fields bk _).2.2.1] at hk
-          exact mem_addLink.mpr (Or.inl (ha.del k hk))
-      · -- no longer valid: del
-        simp only [hov, hnv, Bool.or_false, if_true, Bool.and_false, Bool.false_eq_true, if_false] at hfull ⊢
-        refine ⟨⟨?_, ?_, ?_, ?_, ?_⟩, hwf'⟩
-        · intro n hn; exact mem_addLink.mpr (Or.inl (ha.obj n hn))
-        · intro k hk
-          rw [hvi] at hk
-          by_cases hke : k = i.key
-          · exact mem_addLink.mpr (Or.inr (by rw [hke]))
-          · simp only [hke, if_false] at hk
-            exact mem_addLink.mpr (Or.inl (ha.ing k hk))
-        · intro k j hl hvk
-          rw [hvi] at hvk
-          simp only [(addLink_fields bk _).1, (addLink_fields bk _).2.1]
-          by_cases hke : k = i.key
-          · simp [hke, hnv] at hvk
-          · simp only [hke, if_false] at hvk
-            rcases mem_addLink.mp hl with hl | hl
-            · exact ha.carried k j hl hvk
-            · exact absurd (by injection hl) hke
-        · intro j hj
-          simp only [(addLink_fields bk _).1, (addLink_fields bk _).2.1] at hj
-          exact mem_addLink.mpr (Or.inl (ha.events j hj))
-        · intro k hk
-          simp only [List.mem_append, (addLink_fields bk _).2.2.1] at hk
-          rcases hk with hk | hk
-          · exact mem_addLink.mpr (Or.inl (ha.del k hk))
-          · simp at hk; subst hk; exact mem_addLink.mpr (Or.inr (by rw [holdk, hik]))
-      · -- stays valid: upd
-        simp only [hov, hnv, Bool.or_self, if_true, Bool.and_self] at hfull ⊢
-        refine ⟨⟨?_, ?_, ?_, ?_, ?_⟩, hwf'⟩
-        · intro n hn; exact mem_addLink.mpr (Or.inl (ha.obj n hn))
-        · intro k hk
-          rw [hvi] at hk
-          by_cases hke : k = i.key
-          · exact mem_addLink.mpr (Or.inr (by rw [hke]))
-          · simp only [hke, if_false] at hk
-            exact mem_addLink.mpr (Or.inl (ha.ing k hk))
-        · intro k j hl hvk
-          rw [hvi] at hvk
-          simp only [(addLink_fields bk _).1]
-          by_cases hke : k = i.key
-          · simp [hke, hnv] at hvk
-            right; simp [hvk]
-          · simp only [hke, if_false] at hvk
-            rcases mem_addLink.mp hl with hl | hl
-            · rcases ha.carried k j hl hvk with h | h
-              · left; exact h
-              · right; simp [(addLink_fields bk _).2.1, h]
-            · exact absurd (by injection hl) hke
-        · intro j hj
-          simp only [(addLink_fields bk _).1] at hj
-          rcases hj with hj | hj
-          · exact mem_addLink.mpr (Or.inl (ha.events j (Or.inl hj)))
-          · simp only [List.mem_append, (addLink_fields bk _).2.1] at hj
-            rcases hj with hj | hj
-            · exact mem_addLink.mpr (Or.inl (ha.events j (Or.inr hj)))
-            · simp at hj; subst hj; exact mem_addLink.mpr (Or.inr rfl)
-        · intro k hk
-          simp only [(addLink_fields bk _).2.2.1] at hk
-          exact mem_addLink.mpr (Or.inl (ha.del k hk))
+      have hwf' := nodup_replaceBy Ingress.key ({ i0 with created := old.created } : Ingress) wk.ings hwf
+      cases hov : wk.valid old <;> cases hnv : wk.valid ({ i0 with created := old.created } : Ingress) <;>
+        simp [applyOp, hf, hov, hnv] <;> exact hwf'
   | ingDel k0 =>
-    unfold applyOp at hfull ⊢
-    simp only [] at hfull ⊢
     cases hf : wk.findIng k0 with
-    | none => simp only [hf] at hfull ⊢; exact ⟨ha, hwf⟩
+    | none => simp [applyOp, hf]; exact hwf
     | some old =>
-      simp only [hf] at hfull ⊢
-      have holdk : old.key = k0 := by
-        have := List.find?_some (by rw [← findIng_eq]; exact hf : wk.ings.find? _ = some old)
-        simpa using this
-      have hfind : ∀ k, ({ wk with ings := wk.ings.filter (·.key ≠ k0) } : World).findIng k =
-          if k = k0 then none else wk.findIng k := by
-        intro k
-        rw [findIng_eq, findIng_eq]
-        exact find_filter_ne Ingress.key k0 wk.ings k
-      have hvalid : ∀ j, ({ wk with ings := wk.ings.filter (·.key ≠ k0) } : World).valid j = wk.valid j :=
-        fun j => valid_congr rfl j
-      have hwf' : ({ wk with ings := wk.ings.filter (·.key ≠ k0) } : World).WF := by
+      have hwf' : ∀ p : Ingress → Bool, ({ wk with ings := wk.ings.filter p } : World).WF := by
+        intro p
         unfold World.WF at *
         exact hwf.sublist (List.Sublist.map _ List.filter_sublist)
-      have hvi : ∀ k, ({ wk with ings := wk.ings.filter (·.key ≠ k0) } : World).validIng k =
-          if k = k0 then none else wk.validIng k := by
-        intro k
-        unfold World.validIng
-        rw [hfind]
-        by_cases hk : k = k0
-        · simp [hk, Option.filter]
-        · simp only [hk, if_false]
-          cases wk.findIng k with
-          | none => rfl
-          | some j => simp [Option.filter, hvalid]
-      have hold : wk.validIng k0 = if wk.valid old then some old else none := by
-        unfold World.validIng; rw [hf]; simp [Option.filter]
-      rw [hvalid] at hfull ⊢
-      cases hov : wk.valid old
-      · simp only [hov, Bool.false_eq_true, if_false] at hfull ⊢
-        refine ⟨⟨ha.obj, ?_, ?_, ha.events, ha.del⟩, hwf'⟩
-        · intro k hk
-          rw [hvi] at hk
-          by_cases hke : k = k0
-          · simp [hke, hold, hov] at hk
-          · simp only [hke, if_false] at hk
-            exact ha.ing k hk
-        · intro k j hl hvk
-          rw [hvi] at hvk
-          by_cases hke : k = k0
-          · simp [hke] at hvk
-          · simp only [hke, if_false] at hvk
-            exact ha.carried k j hl hvk
-      · simp only [hov, if_true] at hfull ⊢
-        refine ⟨⟨?_, ?_, ?_, ?_, ?_⟩, hwf'⟩
-        · intro n hn; exact mem_addLink.mpr (Or.inl (ha.obj n hn))
-        · intro k hk
-          rw [hvi] at hk
-          by_cases hke : k = k0
-          · exact mem_addLink.mpr (Or.inr (by rw [hke]))
-          · simp only [hke, if_false] at hk
-            exact mem_addLink.mpr (Or.inl (ha.ing k hk))
-        · intro k j hl hvk
-          rw [hvi] at hvk
-          simp only [(addLink_fields bk _).1, (addLink_fields bk _).2.1]
-          by_cases hke : k = k0
-          · simp [hke] at hvk
-          · simp only [hke, if_false] at hvk
-            rcases mem_addLink.mp hl with hl | hl
-            · exact ha.carried k j hl hvk
-            · exact absurd (by injection hl) hke
-        · intro j hj
-          simp only [(addLink_fields bk _).1, (addLink_fields bk _).2.1] at hj
-          exact mem_addLink.mpr (Or.inl (ha.events j hj))
-        · intro k hk
-          simp only [List.mem_append, (addLink_fields bk _).2.2.1] at hk
-          rcases hk with hk | hk
-          · exact mem_addLink.mpr (Or.inl (ha.del k hk))
-          · simp at hk; subst hk; exact mem_addLink.mpr (Or.inr rfl)
-  | svcSet s =>
-    unfold applyOp at hfull ⊢
-    simp only [] at hfull ⊢
-    refine ⟨acc_other ha rfl rfl (fun n hn => mem_addLink.mpr (Or.inl hn)) (addLink_fields _ _).1
-      (addLink_fields _ _).2.1 (addLink_fields _ _).2.2.1 ?_ ?_, hwf⟩
-    · intro n hn
-      rcases mem_addLink.mp hn with h | h
-      · exact h
-      · cases h
-    · intro n hn
-      apply mem_addLink.mpr
-      by_cases hk : n = ⟨.svc, s.key⟩
-      · exact Or.inr hk
-      · exfalso
-        apply hn
-        obtain ⟨kd, nm⟩ := n
-        cases kd <;> simp only [World.read]
-        · -- svc
-          have : nm ≠ s.key := fun e => hk (by rw [e])
-          unfold World.findSvc
-          simp only []
-          rw [find_replaceBy Service.key s wk.svcs nm]
-          simp [this]
+      cases hov : wk.valid old <;> simp [applyOp, hf, hov] <;> exact hwf' _
+  | svcSet s => exact hwf
   | svcDel k0 =>
-    unfold applyOp at hfull ⊢
-    simp only [] at hfull ⊢
-    cases hf : wk.findSvc k0 with
-    | none => simp only [hf] at hfull ⊢; exact ⟨ha, hwf⟩
-    | some sv =>
-      simp only [hf] at hfull ⊢
-      refine ⟨acc_other ha rfl rfl ?_ ?_ ?_ ?_ ?_ ?_, hwf⟩
-      · intro n hn
-        split
-        · exact mem_addLink.mpr (Or.inl (mem_addLink.mpr (Or.inl hn)))
-        · exact mem_addLink.mpr (Or.inl hn)
-      · split <;> simp [(addLink_fields _ _).1]
-      · split <;> simp [(addLink_fields _ _).2.1]
-      · split <;> simp [(addLink_fields _ _).2.2.1]
-      · intro n hn
-        split at hn
-        · rcases mem_addLink.mp hn with h | h
-          · rcases mem_addLink.mp h with h | h
-            · exact h
-            · cases h
-          · cases h
-        · rcases mem_addLink.mp hn with h | h
-          · exact h
-          · cases h
-      · intro n hn
-        obtain ⟨kd, nm⟩ := n
-        by_cases hnm : nm = k0
-        · subst hnm
-          cases kd <;> simp only [World.read] at hn <;> try exact absurd rfl hn
-          · -- svc
-            split
-            · exact mem_addLink.mpr (Or.inl (mem_addLink.mpr (Or.inr rfl)))
-            · exact mem_addLink.mpr (Or.inr rfl)
-          · -- ep
-            rename_i hep
-            split
-            · exact mem_addLink.mpr (Or.inr rfl)
-            · rename_i hne
-              exfalso
-              apply hn
-              unfold World.findEp at hne ⊢
-              simp only []
-              rw [find_filter_ne Endpoints.key nm wk.eps nm]
-              simp at hne
-              simp [hne]
-        · exfalso
-          apply hn
-          cases kd <;> simp only [World.read]
-          · unfold World.findSvc
-            simp only []
-            rw [find_filter_ne Service.key k0 wk.svcs nm]
-            simp [hnm]
-          · unfold World.findEp
-            simp only []
-            rw [find_filter_ne Endpoints.key k0 wk.eps nm]
-            simp [hnm]
-  | epSet k0 ready notReady =>
-    unfold applyOp at hfull ⊢
-    simp only [] at hfull ⊢
-    generalize he : (if (ready.isEmpty && notReady.isEmpty) = true then (⟨k0, [], [], []⟩ : Endpoints)
-      else ⟨k0, ready, notReady, match wk.findSvc k0 with
-        | some s => s.ports.map fun p => (p.name, numericTarget p.target)
-        | none => []⟩) = e at hfull ⊢
-    have hek : e.key = k0 := by rw [← he]; split <;> rfl
-    have hread : ∀ n : Node, n ≠ ⟨.ep, k0⟩ →
-        wk.read n = ({ wk with eps := replaceBy Endpoints.key e wk.eps } : World).read n := by
-      intro n hn
-      obtain ⟨kd, nm⟩ := n
-      cases kd <;> simp only [World.read]
-      have : nm ≠ e.key := fun e' => hn (by rw [e', hek])
-      unfold World.findEp
+    unfold applyOp; simp only []
+    cases wk.findSvc k0 <;> exact hwf
+  | epSet k0 r nr =>
+    unfold applyOp; simp only []
+    cases wk.findEp k0 with
+    | none => exact hwf
+    | some old =>
       simp only []
-      rw [find_replaceBy Endpoints.key e wk.eps nm]
-      simp [this]
-    cases hf : wk.findEp k0 with
-    | none =>
-      simp only [hf] at hfull ⊢
-      refine ⟨acc_other ha rfl rfl (fun n hn => mem_addLink.mpr (Or.inl hn)) (addLink_fields _ _).1
-        (addLink_fields _ _).2.1 (addLink_fields _ _).2.2.1 ?_ ?_, hwf⟩
-      · intro n hn
-        rcases mem_addLink.mp hn with h | h
-        · exact h
-        · cases h
-      · intro n hn
-        by_cases hk : n = ⟨.ep, k0⟩
-        · exact mem_addLink.mpr (Or.inr hk)
-        · exact absurd (hread n hk) hn
-    | some old =>
-      simp only [hf] at hfull ⊢
-      by_cases hoe : old = e
-      · simp only [hoe, if_true] at hfull ⊢
-        refine ⟨acc_other ha rfl rfl (fun n hn => hn) rfl rfl rfl (fun n hn => hn) ?_, hwf⟩
-        intro n hn
-        by_cases hk : n = ⟨.ep, k0⟩
-        · exfalso
-          apply hn
-          subst hk
-          simp only [World.read]
-          unfold World.findEp at hf ⊢
-          simp only []
-          rw [find_replaceBy Endpoints.key e wk.eps k0, hf, hoe]
-          simp [hek]
-        · exact absurd (hread n hk) hn
-      · simp only [hoe, if_false] at hfull ⊢
-        refine ⟨acc_other ha rfl rfl (fun n hn => mem_addLink.mpr (Or.inl hn)) (addLink_fields _ _).1
-          (addLink_fields _ _).2.1 (addLink_fields _ _).2.2.1 ?_ ?_, hwf⟩
-        · intro n hn
-          rcases mem_addLink.mp hn with h | h
-          · exact h
-          · cases h
-        · intro n hn
-          by_cases hk : n = ⟨.ep, k0⟩
-          · exact mem_addLink.mpr (Or.inr hk)
-          · exact absurd (hread n hk) hn
+      by_cases h : old = mkEndpoints wk k0 r nr
+      · simp only [h, if_true]; exact hwf
+      · simp only [h, if_false]; exact hwf
   | epDel k0 =>
-    unfold applyOp at hfull ⊢
-    simp only [] at hfull ⊢
-    cases hf : wk.findEp k0 with
-    | none => simp only [hf] at hfull ⊢; exact ⟨ha, hwf⟩
-    | some old =>
-      simp only [hf] at hfull ⊢
-      refine ⟨acc_other ha rfl rfl (fun n hn => mem_addLink.mpr (Or.inl hn)) (addLink_fields _ _).1
-        (addLink_fields _ _).2.1 (addLink_fields _ _).2.2.1 ?_ ?_, hwf⟩
-      · intro n hn
-        rcases mem_addLink.mp hn with h | h
-        · exact h
-        · cases h
-      · intro n hn
-        by_cases hk : n = ⟨.ep, k0⟩
-        · exact mem_addLink.mpr (Or.inr hk)
-        · exfalso
-          apply hn
-          obtain ⟨kd, nm⟩ := n
-          cases kd <;> simp only [World.read]
-          have : nm ≠ k0 := fun e' => hk (by rw [e'])
-          unfold World.findEp
-          simp only []
-          rw [find_filter_ne Endpoints.key k0 wk.eps nm]
-          simp [this]
-  | secSet s =>
-    unfold applyOp at hfull ⊢
-    simp only [] at hfull ⊢
-    refine ⟨acc_other ha rfl rfl (fun n hn => mem_addLink.mpr (Or.inl hn)) (addLink_fields _ _).1
-      (addLink_fields _ _).2.1 (addLink_fields _ _).2.2.1 ?_ ?_, hwf⟩
-    · intro n hn
-      rcases mem_addLink.mp hn with h | h
-      · exact h
-      · cases h
-    · intro n hn
-      by_cases hk : n = ⟨.sec, s.key⟩
-      · exact mem_addLink.mpr (Or.inr hk)
-      · exfalso
-        apply hn
-        obtain ⟨kd, nm⟩ := n
-        cases kd <;> simp only [World.read]
-        have : nm ≠ s.key := fun e' => hk (by rw [e'])
-        unfold World.findSec
-        simp only []
-        rw [find_replaceBy Secret.key s wk.secs nm]
-        simp [this]
+    unfold applyOp; simp only []
+    cases wk.findEp k0 <;> exact hwf
+  | secSet s => exact hwf
   | secDel k0 =>
-    unfold applyOp at hfull ⊢
-    simp only [] at hfull ⊢
-    cases hf : wk.findSec k0 with
-    | none => simp only [hf] at hfull ⊢; exact ⟨ha, hwf⟩
-    | some old =>
-      simp only [hf] at hfull ⊢
-      refine ⟨acc_other ha rfl rfl (fun n hn => mem_addLink.mpr (Or.inl hn)) (addLink_fields _ _).1
-        (addLink_fields _ _).2.1 (addLink_fields _ _).2.2.1 ?_ ?_, hwf⟩
-      · intro n hn
-        rcases mem_addLink.mp hn with h | h
-        · exact h
-        · cases h
-      · intro n hn
-        by_cases hk : n = ⟨.sec, k0⟩
-        · exact mem_addLink.mpr (Or.inr hk)
-        · exfalso
-          apply hn
-          obtain ⟨kd, nm⟩ := n
-          cases kd <;> simp only [World.read]
-          have : nm ≠ k0 := fun e' => hk (by rw [e'])
-          unfold World.findSec
-          simp only []
-          rw [find_filter_ne Secret.key k0 wk.secs nm]
-          simp [this]
+    unfold applyOp; simp only []
+    cases wk.findSec k0 <;> exact hwf
   | clsSet n c =>
-    unfold applyOp at hfull ⊢
-    simp only [] at hfull ⊢
-    by_cases hv : ((wk.findCls n == some ourController) || (c == ourController)) = true
-    · simp only [hv, if_true] at hfull
-      simp at hfull
-    · simp only [hv] at hfull ⊢
-      simp only [Bool.or_eq_true, not_or, Bool.not_eq_true] at hv
-      -- neither the old nor the new class is ours: no ingress changes validity
-      have hvalid : ∀ i, ({ wk with clss := replaceBy (·.1) (n, c) wk.clss } : World).valid i = wk.valid i := by
-        intro i
-        unfold World.valid World.findCls
-        simp only []
-        cases i.classAnn with
-        | some a => rfl
-        | none =>
-          cases i.className with
-          | none => rfl
-          | some cn =>
-            simp only []
-            rw [find_replaceBy (fun x : String × String => x.1) (n, c) wk.clss cn]
-            by_cases hcn : cn = n
-            · subst hcn
-              have h1 := hv.1
-              have h2 := hv.2
-              unfold World.findCls at h1
-              simp at h1 h2 ⊢
-              cases hfc : wk.clss.find? (fun x => decide (x.1 = cn)) with
-              | none => simp [h2]
-              | some q => simp [hfc] at h1; simp [h2, h1]
-            · simp [hcn]
-      have hvi : ∀ k, ({ wk with clss := replaceBy (·.1) (n, c) wk.clss } : World).validIng k = wk.validIng k := by
-        intro k
-        unfold World.validIng World.findIng
-        simp only []
-        cases wk.ings.find? (fun x => decide (x.key = k)) with
-        | none => rfl
-        | some j => simp [Option.filter, hvalid]
-      refine ⟨⟨?_, ?_, ?_, ha.events, ha.del⟩, hwf⟩
-      · intro m hm; exact ha.obj m (by simpa [World.read, World.findSvc, World.findEp, World.findSec] using hm)
-      · intro k hk; rw [hvi] at hk; exact ha.ing k hk
-      · intro k j hl hvk; rw [hvi] at hvk; exact ha.carried k j hl hvk
+    unfold applyOp; simp only []
+    split <;> exact hwf
   | clsDel n =>
-    unfold applyOp at hfull ⊢
-    simp only [] at hfull ⊢
-    cases hf : wk.findCls n with
-    | none => simp only [hf] at hfull ⊢; exact ⟨ha, hwf⟩
-    | some c =>
-      simp only [hf] at hfull ⊢
-      by_cases hv : (c == ourController) = true
-      · simp only [hv, if_true] at hfull
-        simp at hfull
-      · simp only [hv] at hfull ⊢
-        have hvalid : ∀ i, ({ wk with clss := wk.clss.filter (·.1 ≠ n) } : World).valid i = wk.valid i := by
-          intro i
-          unfold World.valid World.findCls
-          simp only []
-          cases i.classAnn with
-          | some a => rfl
-          | none =>
-            cases i.className with
-            | none => rfl
-            | some cn =>
-              simp only []
-              rw [find_filter_ne (fun x : String × String => x.1) n wk.clss cn]
-              by_cases hcn : cn = n
-              · subst hcn
-                unfold World.findCls at hf
-                cases hfc : wk.clss.find? (fun x => decide (x.1 = cn)) with
-                | none => simp
-                | some q =>
-                  simp [hfc] at hf
-                  simp at hv
-                  simp [hf, hv]
-              · simp [hcn]
-        have hvi : ∀ k, ({ wk with clss := wk.clss.filter (·.1 ≠ n) } : World).validIng k = wk.validIng k := by
-          intro k
-          unfold World.validIng World.findIng
-          simp only []
-          cases wk.ings.find? (fun x => decide (x.key = k)) with
-          | none => rfl
-          | some j => simp [Option.filter, hvalid]
-        refine ⟨⟨?_, ?_, ?_, ha.events, ha.del⟩, hwf⟩
-        · intro m hm; exact ha.obj m (by simpa [World.read, World.findSvc, World.findEp, World.findSec] using hm)
-        · intro k hk; rw [hvi] at hk; exact ha.ing k hk
-        · intro k j hl hvk; rw [hvi] at hvk; exact ha.carried k j hl hvk
-  | cmSet d =>
-    unfold applyOp at hfull ⊢
-    simp only [] at hfull ⊢
-    refine ⟨acc_other ha rfl rfl (fun n hn => mem_addLink.mpr (Or.inl hn)) (addLink_fields _ _).1
-      (addLink_fields _ _).2.1 (addLink_fields _ _).2.2.1 ?_ ?_, hwf⟩
-    · intro n hn
-      rcases mem_addLink.mp hn with h | h
-      · exact h
-      · cases h
-    · intro n hn
-      exact absurd (read_congr rfl rfl rfl n).symm hn
+    unfold applyOp; simp only []
+    cases wk.findCls n with
+    | none => exact hwf
+    | some c => simp only []; split <;> exact hwf
+  | cmSet d => exact hwf
   | podSet p =>
-    unfold applyOp at hfull ⊢
-    simp only [] at hfull ⊢
-    cases hf : wk.findPod p.key with
-    | none =>
-      simp only [hf] at hfull ⊢
-      exact ⟨acc_other ha rfl rfl (fun n hn => hn) rfl rfl rfl (fun n hn => hn)
-        (fun n hn => absurd (read_congr rfl rfl rfl n).symm hn), hwf⟩
-    | some old =>
-      simp only [hf] at hfull ⊢
-      by_cases ht : (old.term || p.term) = true
-      · simp only [ht, if_true] at hfull ⊢
-        refine ⟨acc_other ha rfl rfl (fun n hn => mem_addLink.mpr (Or.inl hn)) (addLink_fields _ _).1
-          (addLink_fields _ _).2.1 (addLink_fields _ _).2.2.1 ?_
-          (fun n hn => absurd (read_congr rfl rfl rfl n).symm hn), hwf⟩
-        intro n hn
-        rcases mem_addLink.mp hn with h | h
-        · exact h
-        · cases h
-      · simp only [ht] at hfull ⊢
-        exact ⟨acc_other ha rfl rfl (fun n hn => hn) rfl rfl rfl (fun n hn => hn)
-          (fun n hn => absurd (read_congr rfl rfl rfl n).symm hn), hwf⟩
+    unfold applyOp; simp only []
+    cases wk.findPod p.key with
+    | none => exact hwf
+    | some old => simp only []; split <;> exact hwf
   | podDel k0 =>
-    unfold applyOp at hfull ⊢
-    simp only [] at hfull ⊢
-    cases hf : wk.findPod k0 with
-    | none => simp only [hf] at hfull ⊢; exact ⟨ha, hwf⟩
-    | some old =>
-      simp only [hf] at hfull ⊢
-      refine ⟨acc_other ha rfl rfl (fun n hn => mem_addLink.mpr (Or.inl hn)) (addLink_fields _ _).1
-        (addLink_fields _ _).2.1 (addLink_fields _ _).2.2.1 ?_
-        (fun n hn => absurd (read_congr rfl rfl rfl n).symm hn), hwf⟩
-      intro n hn
-      rcases mem_addLink.mp hn with h | h
-      · exact h
-      · cases h
+    unfold applyOp; simp only []
+    cases wk.findPod k0 <;> exact hwf
+
+/-- `full` is only ever set -/
+theorem applyOp_full_mono {wk : World} {bk : Batch} (op : Op) (h : bk.full = true) :
+    (applyOp (wk, bk) op).2.full = true := by
+  cases op <;> unfold applyOp <;> simp only []
+  all_goals (repeat' split) <;> simp [(addLink_fields _ _).2.2.2, h]
+
+/-- LEMMA W: one operation preserves `Acc` unless it asks for a full sync -/
+theorem acc_step {w wk : World} {bk : Batch} (op : Op) (ha : Acc w wk bk) (hwf : wk.WF)
+    (hfull : (applyOp (wk, bk) op).2.full = false) :
+    Acc w (applyOp (wk, bk) op).1 (applyOp (wk, bk) op).2 := by
+  cases op with
+  | ingSet i0 => exact (acc_ingSet i0 ha hwf).1
+  | ingDel k0 => exact (acc_ingDel k0 ha hwf).1
+  | svcSet s => exact acc_svcSet s ha
+  | svcDel k0 => exact acc_svcDel k0 ha
+  | epSet k0 r nr => exact acc_epSet k0 r nr ha
+  | epDel k0 => exact acc_epDel k0 ha
+  | secSet s => exact acc_secSet s ha
+  | secDel k0 => exact acc_secDel k0 ha
+  | clsSet n c => exact acc_clsSet n c ha hfull
+  | clsDel n => exact acc_clsDel n ha hfull
+  | cmSet d => exact acc_cmSet d ha
+  | podSet p => exact acc_podSet p ha
+  | podDel k0 => exact acc_podDel k0 ha
+
+/-- the batch accumulated over a list of operations describes the change, unless it asks for a full sync -/
+theorem acc_ops {w : World} (ops : List Op) (wk : World) (bk : Batch) (ha : Acc w wk bk) (hwf : wk.WF)
+    (hfull : (ops.foldl applyOp (wk, bk)).2.full = false) :
+    Acc w (ops.foldl applyOp (wk, bk)).1 (ops.foldl applyOp (wk, bk)).2 ∧ (ops.foldl applyOp (wk, bk)).1.WF := by
+  induction ops generalizing wk bk with
+  | nil => exact ⟨ha, hwf⟩
+  | cons op ops ih =>
+    simp only [List.foldl_cons] at hfull ⊢
+    have hstep : (applyOp (wk, bk) op).2.full = false := by
+      cases h : (applyOp (wk, bk) op).2.full with
+      | false => rfl
+      | true =>
+        exfalso
+        have : ∀ (l : List Op) (x : World × Batch), x.2.full = true → (l.foldl applyOp x).2.full = true := by
+          intro l
+          induction l with
+          | nil => intro x hx; exact hx
+          | cons o l ihl =>
+            intro x hx
+            simp only [List.foldl_cons]
+            exact ihl _ (applyOp_full_mono (wk := x.1) (bk := x.2) o hx)
+        have := this ops (applyOp (wk, bk) op) h
+        rw [this] at hfull
+        cases hfull
+    exact ih (applyOp (wk, bk) op).1 (applyOp (wk, bk) op).2 (acc_step op ha hwf hstep) (applyOp_wf op hwf) hfull
+
+theorem wf_ops (ops : List Op) (wk : World) (bk : Batch) (hwf : wk.WF) : (ops.foldl applyOp (wk, bk)).1.WF := by
+  induction ops generalizing wk bk with
+  | nil => exact hwf
+  | cons op ops ih =>
+    simp only [List.foldl_cons]
+    exact ih _ _ (applyOp_wf op hwf)
+
+/-- the batch of the watchers model satisfies the hypothesis of the step theorems (drain-support off) -/
+theorem describes_of_ops {w : World} (ops : List Op) (hwf : w.WF)
+    (hfull : (ops.foldl applyOp (w, {})).2.full = false)
+    (hdr : w.drain = false) (hdr' : (ops.foldl applyOp (w, {})).1.drain = false) :
+    Describes w (ops.foldl applyOp (w, {})).1 (ops.foldl applyOp (w, {})).2 := by
+  obtain ⟨ha, _⟩ := acc_ops ops w {} (acc_init w) hwf hfull
+  exact ⟨ha.obj, ha.ing, ha.carried, ha.events, ha.del, hdr, hdr'⟩
 
 end HapVerif.C01
